@@ -14,9 +14,14 @@ Deductive part (pyvc, real ASTs):
                                          satisfy the property iff every kerned script tag has `languagesystem <tag> dflt` — and
                                          the canary is the recorded finding F7 (no languagesystem at all: LS = {DFLT/dflt})
 
+  * featureWriters.ast.getScriptLanguageSystems  soundness (only declared (tag, language) pairs, under the tag's Unicode script) proved;
+                                         completeness (ALL languages of a tag, whatever the statement order) is a run-time-only
+                                         clause of the contract (the filtered comprehension is modelled without positions)
+
 Outside the pyvc subset (notes/C20.requests.md), checked on the real functions by vcheck/hooks/c20.py (bounded):
-ast.getScriptLanguageSystems (all languages per tag, non-contiguous statements), KernFeatureWriter._registerLookups,
-"mark/mkmk/abvm/blwm/curs blocks carry no script/language statement", and the end-to-end observer on GPOS.ScriptList.
+ast.getScriptLanguageSystems against an independent reference (all languages per tag, non-contiguous statements),
+KernFeatureWriter._registerLookups, "mark/mkmk/abvm/blwm/curs blocks carry no script/language statement", and the end-to-end observer
+on GPOS.ScriptList (feature files without languagesystem statements are skipped: known finding F7).
 """
 import z3
 
@@ -47,7 +52,7 @@ CLASSES[NS].views["font"] = lambda o: __import__("pyvc.rt", fromlist=["Proxy"]).
 
 
 @specfn(List(STR), opaque=True, cp=INT)
-def script_ext(cp):
+def c20_script_ext(cp):
     """ufo2ft.util.unicodeScriptExtensions(cp) as a duplicate-free list (sorted) — a function of the code point (the helper
     wraps fontTools.unicodedata.script_extension and a constant alias table); opaque in the logic"""
     from ufo2ft.util import unicodeScriptExtensions
@@ -64,10 +69,10 @@ def langsys_scripts(feaFile):
     return set(ast.getScriptLanguageSystems(M.raw(feaFile)).keys())
 
 
-@M.shim_function("unicodeScriptExtensions", "ufo2ft.util.unicodeScriptExtensions(cp) (one line over fontTools.unicodedata) returns the set script_ext(cp): a function of the "
+@M.shim_function("unicodeScriptExtensions", "ufo2ft.util.unicodeScriptExtensions(cp) (one line over fontTools.unicodedata) returns the set c20_script_ext(cp): a function of the "
                  "code point only; modelled as a duplicate-free list (len, update)")
 def _use(ex, st, args, kwargs, node):
-    return ex.apply_spec(SPECFNS["script_ext"], [args[0]], st, node)
+    return ex.apply_spec(SPECFNS["c20_script_ext"], [args[0]], st, node)
 
 
 cls("c20_LangSysMap", fields={"feaFile": Ref(FEAFILE)},
@@ -88,7 +93,7 @@ cls("c20_Writer", fields={"context": Ref(NS)}, views={"context": lambda o: M.P(o
 _G = "self.context.font.glyphs"
 _F = "self.context.feaFile"
 _GS = "self.context.glyphSet"
-_SINGLE = "(len(script_ext({cp})) == 1 and script_ext({cp})[0] == {s})"
+_SINGLE = "(len(c20_script_ext({cp})) == 1 and c20_script_ext({cp})[0] == {s})"
 
 
 def _from_glyph(g, s):
@@ -106,10 +111,10 @@ contract(
         "only-exported-glyphs-contribute": f"all(s in langsys_scripts({_F}) or any({_from_glyph(_G + '[a]', 's')} for a in range(len({_G}))) for s in result)",
         # and all of those are found
         "all-exported-single-scripts": f"all(implies({_G}[a].name in {_GS} and {_G}[a].unicodes is not None,"
-        f" all(implies(len(script_ext(cp)) == 1, script_ext(cp)[0] in result) for cp in {_G}[a].unicodes)) for a in range(len({_G})))",
+        f" all(implies(len(c20_script_ext(cp)) == 1, c20_script_ext(cp)[0] in result) for cp in {_G}[a].unicodes)) for a in range(len({_G})))",
         "all-languagesystem-scripts": f"all(s in result for s in langsys_scripts({_F}))",
     },
-    canaries={"every-glyph-contributes": f"all(implies({_G}[a].unicodes is not None, all(implies(len(script_ext(cp)) == 1, script_ext(cp)[0] in result) for cp in {_G}[a].unicodes)) for a in range(len({_G})))"},
+    canaries={"every-glyph-contributes": f"all(implies({_G}[a].unicodes is not None, all(implies(len(c20_script_ext(cp)) == 1, c20_script_ext(cp)[0] in result) for cp in {_G}[a].unicodes)) for a in range(len({_G})))"},
     locals={"single_scripts": Set(STR)},
     loops={
         "for glyph in font": Loop(
@@ -117,7 +122,7 @@ contract(
             seq="GL",
             invariants={
                 "sound": f"all(any({_from_glyph('GL[a]', 's')} for a in range(i)) for s in single_scripts)",
-                "complete": f"all(implies(GL[a].name in {_GS} and GL[a].unicodes is not None, all(implies(len(script_ext(cp)) == 1, script_ext(cp)[0] in single_scripts) for cp in GL[a].unicodes)) for a in range(i))",
+                "complete": f"all(implies(GL[a].name in {_GS} and GL[a].unicodes is not None, all(implies(len(c20_script_ext(cp)) == 1, c20_script_ext(cp)[0] in single_scripts) for cp in GL[a].unicodes)) for a in range(i))",
             },
         ),
         "for codepoint in glyph.unicodes": Loop(
@@ -125,8 +130,8 @@ contract(
             seq="U",
             invariants={
                 "sound": f"all(any({_from_glyph('GL[a]', 's')} for a in range(i)) or any({_SINGLE.format(cp='U[b]', s='s')} for b in range(j)) for s in single_scripts)",
-                "complete": f"all(implies(GL[a].name in {_GS} and GL[a].unicodes is not None, all(implies(len(script_ext(cp)) == 1, script_ext(cp)[0] in single_scripts) for cp in GL[a].unicodes)) for a in range(i))",
-                "complete-cur": "all(implies(len(script_ext(U[b])) == 1, script_ext(U[b])[0] in single_scripts) for b in range(j))",
+                "complete": f"all(implies(GL[a].name in {_GS} and GL[a].unicodes is not None, all(implies(len(c20_script_ext(cp)) == 1, c20_script_ext(cp)[0] in single_scripts) for cp in GL[a].unicodes)) for a in range(i))",
+                "complete-cur": "all(implies(len(c20_script_ext(U[b])) == 1, c20_script_ext(U[b])[0] in single_scripts) for b in range(j))",
             },
         ),
     },
@@ -282,7 +287,7 @@ for _nm, _n, _l, _x, _w in (("script-dflt-TRK-AZE", 2, ("dflt", "TRK ", "AZE "),
 
 
 @specfn(STR, opaque=True, tag=STR)
-def ot_script(tag):
+def c20_ot_script(tag):
     """fontTools.unicodedata.ot_tag_to_script(tag): a function of the tag (trusted library, opaque in the logic)"""
     from fontTools import unicodedata
 
@@ -298,9 +303,9 @@ def _ordered_dict(ex, st, args, kwargs, node):
     return Val(PYOBJ, None, {}, True)
 
 
-@M.shim_function("ot_tag_to_script", "fontTools.unicodedata.ot_tag_to_script(tag) returns ot_script(tag): a function of the tag")
+@M.shim_function("ot_tag_to_script", "fontTools.unicodedata.ot_tag_to_script(tag) returns c20_ot_script(tag): a function of the tag")
 def _ot_tag_to_script(ex, st, args, kwargs, node):
-    return ex.apply_spec(SPECFNS["ot_script"], [args[0]], st, node)
+    return ex.apply_spec(SPECFNS["c20_ot_script"], [args[0]], st, node)
 
 
 import types as _types  # noqa: E402
@@ -322,14 +327,14 @@ contract(
     ensures={
         # nothing but declared languagesystems is reported: every (tag, languages) entry stands under the tag's Unicode script, and every listed
         # language comes from a `languagesystem <tag> <language>` statement (DFLT ones only when not excluded)
-        "only-declared": f"all(all(ot_script(e[0]) == sc and all(any({_KEPT.format(s=_ST + '[a]')} and {_ST}[a].script == e[0] and {_ST}[a].language == l"
+        "only-declared": f"all(all(c20_ot_script(e[0]) == sc and all(any({_KEPT.format(s=_ST + '[a]')} and {_ST}[a].script == e[0] and {_ST}[a].language == l"
         f" for a in range(len({_ST}))) for l in e[1]) for e in result[sc]) for sc in result)",
     },
     bounded_ensures={
         # ALL languages of a tag, wherever in the file the statements stand.  Run-time only: the engine models a filtered list comprehension
         # without an index for "every passing element occurs in the result", which this direction needs (notes/C20.requests.md)
-        "all-languages-per-tag": f"all(implies({_KEPT.format(s=_ST + '[a]')}, ot_script({_ST}[a].script) in result"
-        f" and any(e[0] == {_ST}[a].script and {_ST}[a].language in e[1] for e in result[ot_script({_ST}[a].script)])) for a in range(len({_ST})))",
+        "all-languages-per-tag": f"all(implies({_KEPT.format(s=_ST + '[a]')}, c20_ot_script({_ST}[a].script) in result"
+        f" and any(e[0] == {_ST}[a].script and {_ST}[a].language in e[1] for e in result[c20_ot_script({_ST}[a].script)])) for a in range(len({_ST})))",
     },
     canaries={"nothing-reported": "all(len(result[sc]) == 0 for sc in result)"},
     locals={"languagesByScript": Dict(STR, List(STR)), "langSysMap": LANGMAP},
@@ -349,7 +354,7 @@ contract(
             index="j",
             seq="KT",
             invariants={
-                "script": "all(all(ot_script(e[0]) == sc for e in langSysMap[sc]) for sc in langSysMap)",
+                "script": "all(all(c20_ot_script(e[0]) == sc for e in langSysMap[sc]) for sc in langSysMap)",
                 "tag": "all(all(e[0] in languagesByScript for e in langSysMap[sc]) for sc in langSysMap)",
                 "languages": "all(all(e[1] == languagesByScript[e[0]] for e in langSysMap[sc]) for sc in langSysMap)",
             },
